@@ -148,3 +148,7 @@ T("c15-dump-local-dict", ["C15"], WAL, "            keypairs={computer(k): compu
 T("c14-rename-locals", ["C14"], WAL, "    collected_value = 0\n    inputs = []\n    newly_spent_outputs = []\n", "    collected_value = 0\n    inputs = []\n    newly_spent_outputs = []\n    # (twin) comment only\n")
 T("c14-total-needed-local", ["C14"], WAL, "            if collected_value >= value + miners_fee:\n                outputs = [Output(value, output_public_key)]\n\n                if collected_value != value + miners_fee:",
   "            needed = value + miners_fee\n            if collected_value >= needed:\n                outputs = [Output(value, output_public_key)]\n\n                if needed != collected_value:")
+
+T("c04-flip-work-compare", ["C04", "C03"], CS, "        elif block.get_total_work() > self.block_by_hash[self.current_chain_hash].get_total_work():", "        elif self.block_by_hash[self.current_chain_hash].get_total_work() < block.get_total_work():")
+T("c04-if-order", ["C04", "C03"], CS, "        if self.current_chain_hash is None or self.current_chain_hash == block.previous_block_hash:", "        if block.header.summary.previous_block_hash == self.current_chain_hash or self.current_chain_hash is None:")
+T("c03-inline-locals", ["C03", "C04"], CS, "        block_hash = block.hash()\n\n        block_by_hash: immutables.Map[bytes, Block] = self.block_by_hash.set(block_hash, block)", "        block_hash = block.hash()\n        bh = block_hash\n\n        block_by_hash: immutables.Map[bytes, Block] = self.block_by_hash.set(bh, block)")
